@@ -902,5 +902,42 @@ fn main() {
         crosscheck_stateright(&ctx, "banded histories n=3", inits.clone(), depth);
     }
     explore_replayed(&ctx, "clone-free histories on one Banded<Rat>", inits, BfsOpts { max_depth: ctx.pick(4, 5), state_cap: 2_000_000 });
+    // Known findings: Banded<Complex<f64>> beyond |z| ~ 1e154 / below ~ 1e-154 (Complex::abs and the complex division are unscaled;
+    // same root cause and same reason for not repairing as in C01). The property names "tiny positive sub-diagonal entries".
+    {
+        let tiny_sub = |which: usize| -> Result<(), String> {
+            // [[0, 1], [t, 1]] with t = 1e-200: det = -t, solution of A x = (1, 1) is (0, 1)
+            let z = |re: f64| Cmplx::new(re, 0.0);
+            let mut b = Banded::new(2, 1, 1, z(0.0));
+            b[(0, 0)] = z(0.0);
+            b[(0, 1)] = z(1.0);
+            b[(1, 0)] = z(1e-200);
+            b[(1, 1)] = z(1.0);
+            if which == 0 {
+                let d = b.det();
+                ensure!((d.real + 1e-200).abs() <= 1e-212 && d.imag == 0.0, "det = {:?} but the determinant is -1e-200", d);
+            } else {
+                let x = b.solve(&Vector::create(vec![z(1.0), z(1.0)]));
+                ensure!(x[0].real.abs() <= 1e-12 && (x[1].real - 1.0).abs() <= 1e-12 && x[0].imag == 0.0 && x[1].imag == 0.0, "x = {:?} but the solution is (0, 1)", x.vec);
+            }
+            Ok(())
+        };
+        let huge = || -> Result<(), String> {
+            let z = |re: f64| Cmplx::new(re, 0.0);
+            let mut b = Banded::new(1, 0, 0, z(0.0));
+            b[(0, 0)] = z(1e160);
+            let x = b.solve(&Vector::create(vec![z(2e160)]));
+            ensure!((x[0].real - 2.0).abs() <= 1e-12 && x[0].imag == 0.0, "x = {:?} but the solution is 2", x.vec);
+            Ok(())
+        };
+        ctx.known_cases(
+            "listed inputs: Banded<Complex<f64>> with entries of extreme magnitude",
+            vec![
+                ("extreme-complex band [[0,1],[1e-200,1]] det".to_string(), Box::new(move || tiny_sub(0))),
+                ("extreme-complex band [[0,1],[1e-200,1]] solve".to_string(), Box::new(move || tiny_sub(1))),
+                ("extreme-complex band [1e160] x = [2e160] solve".to_string(), Box::new(huge)),
+            ],
+        );
+    }
     std::process::exit(ctx.finish());
 }
